@@ -301,6 +301,8 @@ class Ev(T.Evaluator):
     def _bin(self, op, l, r):
         if l[0] == "name" and r[0] == "name" and op in ("==", "!="):
             return ("b", (l == r) == (op == "=="))
+        if l[0] == "name" and op == "+" and r[0] in ("s", "name"):
+            return ("name", l[1] + ((lit(r[1]),) if r[0] == "s" else r[1]))
         if (l[0] == "pos") != (r[0] == "pos") and (l[0] == "i" or r[0] == "i"):
             p, c = (l, r) if l[0] == "pos" else (r, l)
             if l[0] != "pos":
@@ -506,6 +508,8 @@ class Ev(T.Evaluator):
                 return ("t", [])
             if nm == "reserve":
                 return ("t", [])
+            if nm in ("unwrap", "expect"):
+                return a0                          # conversions of a name that the model treats as infallible (into_string)
             if nm == "is_empty" and len(args) == 1:
                 if not a0[1]:
                     return ("b", True)
